@@ -1,10 +1,11 @@
 (* Props/C04.v — property C04: compiling any string terminates with a template
    or a TemplateError.  Statements only; proofs in Proofs/PegFacts.v,
    Proofs/PegTermination.v, Proofs/CompileNoPanic.v, Proofs/CompileStages.v,
-   Proofs/CompilePositions.v; the token grammar wf_tokens is in Spec/WfTokens.v.
+   Proofs/CompilePositions.v, Proofs/CompileTermination.v, Proofs/PegForest.v,
+   Proofs/GrammarSchema.v; the token grammar wf_tokens is in Spec/WfTokens.v.
 
    Status of the pieces:
-   * C04_refuted                     the FULL no-panic statement is FALSE of the model (finding F1).
+   * C04_chain_tilde_compiles        the former F1 witness `{{~else if}}` compiles (defect fixed).
    * C04_positions, C04_line_col_inside, C04_error_kinds
                                      full (every source).
    * C04_eval_fuel_mono, C04_eval_good, C04_quiet_no_tokens, C04_parse_spans
@@ -15,23 +16,35 @@
                                      the fold's own fuel 16 + 4*|tokens| suffices for main_loop, the
                                      tag-body parsers and the else-chain reversal: compile2 never
                                      returns CFuel (with the outcome type this is "never hangs").
-   * C04_tag_parsers_no_panic_partial, C04_no_panic_wf_tokens_partial
+   * C04_tag_parsers_no_panic, C04_no_panic_wf_tokens
                                      the compile2 fold never panics on token lists in wf_tokens.
-                                     MISSING for the full `forall src outside the F1 class`:
-                                     "every pest output for such a source is in wf_tokens and has
-                                     escapes_sorted" (the grammar-schema theorem); that inclusion is
-                                     checked by the differential run, not proved. *)
+   * C04_schema                      full: every token list the PEG interpreter yields for the
+                                     generated grammar is in wf_tokens, its escapes are ordered.
+   * C04_no_panic, C04_compile_total full, unconditional: for every source and all options
+                                     compile2 returns a template or a TemplateError — no panic,
+                                     no fuel exhaustion. *)
 From Coq Require Import List NArith Lia.
-From HB Require Import Peg.Peg Peg.Grammar Tpl.Compile Spec.WfTokens
+From HB Require Import Peg.Peg Peg.Grammar Tpl.Ast Tpl.Compile Spec.WfTokens
   Proofs.PegFacts Proofs.PegTermination Proofs.CompileNoPanic Proofs.CompileStages Proofs.CompilePositions
-  Proofs.CompileTermination.
+  Proofs.CompileTermination Proofs.PegForest Proofs.GrammarSchema Proofs.GrammarTemplates.
 Import ListNotations.
 Open Scope N_scope.
 
-(* ---------- the full no-panic statement is false (F1) ---------- *)
-Theorem C04_refuted : exists src site, compile2 src default_opts = CPanic site.
-Proof. exact compile_panics. Qed.
-Print Assumptions C04_refuted.
+(* ---------- the chained else accepts a leading `~` (was finding F1) ---------- *)
+Theorem C04_chain_tilde_compiles :
+  compile2 (`"{{#if a}}A{{~else if b}}B{{/if}}") default_opts =
+  COk (MkT None
+        [ElBlock
+           (MkH (PName (`"if")) [PPath (PathRelative [SegNamed (`"a")] (`"a"))] [] None
+              (Some (MkT None [ElRaw (`"A")] [(1, 10)]))
+              (Some (MkT None
+                       [ElBlock
+                          (MkH (PName (`"if")) [PPath (PathRelative [SegNamed (`"b")] (`"b"))] [] None
+                             (Some (MkT None [ElRaw (`"B")] [(1, 25)])) None true true false)] []))
+              true true false)]
+        [(1, 1)]).
+Proof. exact chain_tilde_compiles. Qed.
+Print Assumptions C04_chain_tilde_compiles.
 
 (* ---------- error positions ---------- *)
 Theorem C04_line_col_inside : forall (s : str) (pos l c : N),
@@ -114,7 +127,7 @@ Proof. exact hb_parse_terminates. Qed.
 Print Assumptions C04_peg_terminates.
 
 (* compile2 never runs out of fuel: for every source and all options the outcome
-   is a template, a TemplateError or (finding F1) a panic — never CFuel *)
+   is never CFuel *)
 Theorem C04_compile_terminates : forall src opts, compile2 src opts <> CFuel.
 Proof. exact compile2_terminates. Qed.
 Print Assumptions C04_compile_terminates.
@@ -125,9 +138,9 @@ Theorem C04_peg_stage_terminates : forall src start,
 Proof. exact peg_stage_terminates. Qed.
 Print Assumptions C04_peg_stage_terminates.
 
-(* ---------- no panic in the compile2 fold (partial: over wf_tokens) ---------- *)
+(* ---------- no panic in the compile2 fold over wf_tokens ---------- *)
 (* the tag-body parser consumes exactly the tag's tokens and never panics *)
-Theorem C04_tag_parsers_no_panic_partial : forall src fuel limit l rest,
+Theorem C04_tag_parsers_no_panic : forall src fuel limit l rest,
   tag_toks limit l -> Forall (span_ok src) l ->
   match rest with [] => True | t :: _ => limit <= tk_end t end ->
   match parse_expression src fuel (l ++ rest) limit with
@@ -136,11 +149,29 @@ Theorem C04_tag_parsers_no_panic_partial : forall src fuel limit l rest,
   | _ => True
   end.
 Proof. intros src fuel. exact (proj1 (discipline src fuel)). Qed.
-Print Assumptions C04_tag_parsers_no_panic_partial.
+Print Assumptions C04_tag_parsers_no_panic.
 
-Theorem C04_no_panic_wf_tokens_partial : forall src opts,
+Theorem C04_no_panic_wf_tokens : forall src opts,
   (forall ts, hb_parse (peg_fuel src) R_handlebars src = Parsed ts ->
               wf_tokens (filter not_escape ts) /\ escapes_sorted ts) ->
   forall site, compile2 src opts <> CPanic site.
 Proof. exact compile2_no_panic_wf. Qed.
-Print Assumptions C04_no_panic_wf_tokens_partial.
+Print Assumptions C04_no_panic_wf_tokens.
+
+(* ---------- the grammar-schema theorem ---------- *)
+Theorem C04_schema : forall fuel src ts,
+  hb_parse fuel R_handlebars src = Parsed ts ->
+  wf_tokens (filter not_escape ts) /\ escapes_sorted ts.
+Proof. exact hb_parse_wf. Qed.
+Print Assumptions C04_schema.
+
+(* ---------- compile2 never panics: every source, all options ---------- *)
+Theorem C04_no_panic : forall src opts site, compile2 src opts <> CPanic site.
+Proof. exact compile2_no_panic. Qed.
+Print Assumptions C04_no_panic.
+
+(* compiling any string ends with a template or a TemplateError *)
+Theorem C04_compile_total : forall src opts,
+  (exists t, compile2 src opts = COk t) \/ (exists e, compile2 src opts = CErr e).
+Proof. exact compile2_total. Qed.
+Print Assumptions C04_compile_total.
